@@ -619,21 +619,24 @@ def rule_r10(F):
         r.missing("ScopeGraph::insert_import")
         return r
     b = F.body(ps[0])
-    ms = hir.find_match_on(b.hir["value"], "Entry::", min_arms=2)
-    if not ms:
-        r.missing("the match on the entry of the imports table in insert_import")
+    if not b.mir:
+        r.missing("MIR of insert_import")
         return r
-    for arm in ms[0]["arms"]:
-        alts = hir.pat_alternatives(arm["pat"])
-        if not any("Occupied" in a for a in alts):
-            continue
-        oks = [n for n in hir.walk(arm["body"]) if n.get("k") == "call" and hir.last(hir.call_def(n) or "") == "Ok"]
-        errs = [n for n in hir.walk(arm["body"]) if n.get("k") == "call" and hir.last(hir.call_def(n) or "") == "Err"]
-        r.inst("occupied entry", {"line": arm.get("line"), "ok_exits": len(oks), "err_exits": len(errs)})
-        if oks or not errs:
-            r.bad(b.path, "occupied import entry accepted", relfile(b.file), (oks[0].get("line") if oks else arm.get("line")),
-                  "importing a name that is already imported into the scope can succeed: the second import is dropped silently, so `import a.f; import b.f;` compiles and which `f` a call "
-                  "reaches depends on the order of the two lines")
+    defs = mir.Defs(b)
+    dom = mir.dominators(b)
+    ins = mir.vacant_only_insertions(b, defs, dom)
+    oks = mir.ok_exits(b)
+    if not oks:
+        r.missing("a successful exit of insert_import")
+        return r
+    for ob in oks:
+        fresh = any(ib in dom[ob] for ib in ins)
+        r.inst("successful exit", {"block": ob, "behind_an_insertion_of_a_new_key": fresh, "new_key_insertions": len(ins)})
+        if not fresh:
+            ln = next((st.get("line") for st in b.blocks[ob]["stmts"] if st["k"] == "assign" and st["p"] == [0]), b.line)
+            r.bad(b.path, "occupied import entry accepted", relfile(b.file), ln,
+                  "importing a name that is already imported into the scope can succeed (a successful exit that is not behind the insertion of a NEW key): the second import is dropped or "
+                  "replaces the first silently, so `import a.f; import b.f;` compiles and which `f` a call reaches depends on the order of the two lines")
     return r
 
 
